@@ -69,6 +69,22 @@ def instantiations(tier, seed):
             a2 = copy.deepcopy(added)
             a2[-1]["id"] = rule_ids[0]
             out.append({"model": c, "added": a2, "clash": "rule"})
+    # rules that are groups without an id of their own (pg.All over named rules, also nested), added first or present from the start, then
+    # extended further; and the same id-less group added twice (same generated id: the second addition must be refused)
+    V = F.V
+
+    def grp(i):
+        return F.N("All", F.N("All", F.N("Any", V("g1"), V("g2"), id="G%da" % i), F.N("Any", V("g3"), V("c"), id="G%db" % i)), F.AM(1, V("g4"), V("b"), id="G%dc" % i))
+    plain = lambda i: F.N("Any", V("n3"), V("c"), id="N%d" % i)     # noqa
+    for k, c in enumerate(cfgs[:2 if tier == "quick" else 12]):
+        c = F.symbolize(c)
+        out.append({"model": c, "added": [grp(0), plain(1)], "clash": None})
+        out.append({"model": c, "added": [plain(0), grp(1), plain(2)], "clash": None})
+        cb = copy.deepcopy(c)
+        cb["ch"] = list(cb["ch"]) + [grp(5)]
+        out.append({"model": cb, "added": [plain(0), plain(1)], "clash": None})
+        out.append({"model": c, "added": [grp(0), grp(0)], "clash": "rule"})
+        out.append({"model": c, "added": [F.N("All", plain(3), F.AM(1, V("g4"), V("b"), id="G9"))], "clash": None})
     # top-level items: configurators given plain items at the top level
     c = cfg.SC(F.V("a"), F.V("b"), cfg.cXor(F.V("x"), F.V("y"), id="X", default=["x"]))
     out.append({"model": c, "added": [F.N("Any", F.V("n1"), F.V("n2"), id="a")], "clash": "item"})
